@@ -2,7 +2,11 @@
 from __future__ import annotations
 from typing import Callable, Dict, Optional, Sequence, Union
 import re
-from os import PathLike
+import bz2
+import gzip
+import lzma
+from os import PathLike, fspath
+from os.path import splitext
 
 import numpy
 import numpy.typing
@@ -11,6 +15,9 @@ import numpoly
 
 from .savetxt import HEADER_TEMPLATE
 from ..baseclass import ndpoly
+
+# compressed files `numpy.loadtxt` (and `numpy.savetxt`) handle by extension
+OPENERS = {".gz": gzip.open, ".bz2": bz2.open, ".xz": lzma.open}
 
 HEADER_REGEX = re.compile(
     HEADER_TEMPLATE.format(
@@ -102,7 +109,8 @@ def loadtxt(
 
     """
     if isinstance(fname, (str, bytes, PathLike)):
-        with open(fname) as src:
+        opener = OPENERS.get(splitext(fspath(fname))[1], open)  # type: ignore
+        with opener(fname, "rt") as src:
             header = src.readline()
     else:
         position = fname.tell()
